@@ -6,6 +6,7 @@ mod crash;
 mod fault;
 mod filterfmt;
 mod hist;
+mod lockfmt;
 mod logfmt;
 mod simfs;
 mod tablefmt;
@@ -378,6 +379,7 @@ fn main() {
         "crash" => cmd_crash(&m),
         "fault" => cmd_fault(&m),
         "logfmt" => logfmt::cmd(&m),
+        "lockfmt" => lockfmt::cmd(&m),
         "tablefmt" => tablefmt::cmd(&m),
         "filterfmt" => filterfmt::cmd(&m),
         _ => {
